@@ -10,6 +10,7 @@
 #   mode sup    : exit status 0 in any case; prints sat iff every given token occurs, else unsat (which CONTAINS the golden text sat)
 #   mode set    : the words are token digests (12 hex digits, as logged): "fails" iff the token sequence of the file is one of them
 #                 (an adversarial command that accepts exactly the listed inputs)
+#   mode le     : tokpred.sh le <N> <tok> <file>: "fails" iff <tok> occurs at most N times
 #   mode sync   : as all, and additionally the literal tokens (numerals, decimals, #b/#x, strings) must be at least two and all equal
 #                 (occurrences that have to be kept in sync: only a step that changes all of them at once is accepted)
 # Logs "<digest> <verdict>" to $VERIF_CMDLOG.  Optional delay: $VERIF_CMD_DELAY (ms, scaled by the digest).
@@ -20,6 +21,7 @@ digest=$(printf '%s\n' "$toks" | md5sum | cut -c1-12)
 ok=1
 setargs=""
 if [ "$mode" = set ]; then while [ $# -gt 1 ]; do setargs="$setargs $1"; shift; done; fi
+if [ "$mode" = le ]; then lemax="$1"; letok="$2"; shift; shift; fi
 while [ $# -gt 1 ]; do
   printf '%s\n' "$toks" | grep -qxF -e "$1" || ok=0
   shift
@@ -27,6 +29,8 @@ done
 case "$mode" in
   set) # the given words are token digests: "fails" iff the file is one of exactly these token sequences
        ok=0; for d in $setargs; do [ "$d" = "$digest" ] && ok=1; done ;;
+  le) # "fails" iff the token occurs at most N times (a budget: only so many steps that add an occurrence are accepted)
+      cnt=$(printf '%s\n' "$toks" | grep -cxF -e "$letok"); [ "$cnt" -le "$lemax" ] || ok=0 ;;
   sync) vals=$(printf '%s\n' "$toks" | grep -E '^([0-9]|#[bx]|")')
         cnt=$(printf '%s\n' "$vals" | grep -c .); dist=$(printf '%s\n' "$vals" | sort -u | grep -c .)
         { [ "$cnt" -ge 2 ] && [ "$dist" -eq 1 ]; } || ok=0 ;;
